@@ -105,8 +105,9 @@ func H_Sequential() {
 func H_SharedInterpreterSchedule() {
 	it := newIt()
 	a, b := zv.Float64("a"), zv.Float64("b")
-	zv.Assume(a != b && a == a && b == b)
-	src := []string{"输入V\n输出 V", "输入V\n输出 V + 0"}
+	zv.Assume(a == a && b == b)
+	// the two scripts differ: the second one negates its input
+	src := []string{"输入V\n输出 V", "输入V\n输出 V * -1"}
 	in := []r.ElementMap{{"V": value.NewNumber(a)}, {"V": value.NewNumber(b)}}
 	loaded := []*exec.Interpreter{nil, nil}
 	step := []int{0, 0} // 0: before LoadScript, 1: loaded, 2: executed
@@ -134,7 +135,7 @@ func H_SharedInterpreterSchedule() {
 	}
 	zv.Assert(results[0].p == nil && results[1].p == nil, "no panic")
 	zv.Assert(results[0].err == nil && isSame(results[0].res, a), "request 1 gets the result of its own script under every interleaving")
-	zv.Assert(results[1].err == nil && isSame(results[1].res, b), "request 2 gets the result of its own script under every interleaving")
+	zv.Assert(results[1].err == nil && isSame(results[1].res, -b), "request 2 gets the result of its own script under every interleaving")
 }
 
 func isSame(e r.Element, want float64) bool {
